@@ -48,7 +48,7 @@ fn gen_slots(rng: &mut Rng, f: &mut Fmt, n_groups: usize) -> Vec<[u8; 32]> {
                     0 => 1 + rng.usize_below(13),
                     1 => 13 * (1 + rng.usize_below(3)),
                     2 => 240 + rng.usize_below(8), // 19 fragments
-                    3 => 248 + rng.usize_below(12), // 20 fragments: outside the supported range
+                    3 => 248 + rng.usize_below(8), // 20 fragments: the longest names FAT allows (255 units)
                     _ => 1 + rng.usize_below(60),
                 };
                 let name: Vec<u16> = (0..len)
@@ -230,23 +230,9 @@ pub fn run_into(ctx: &Ctx, total: &mut Report) {
                 continue;
             }
             let well = fatref::assemble_lfn_units(&run, &s.name());
-            // "sound" = complete ordered run where only the FIRST fragment's checksum must match
-            let sound = {
-                let mut r2 = run.clone();
-                if let Some(p) = r2.iter().rposition(|x| x.raw[0] & 0x40 != 0) {
-                    let c0 = r2[p].raw[13];
-                    for x in r2[p..].iter_mut() {
-                        x.raw[13] = c0;
-                    }
-                    if c0 == fatref::lfn_checksum(&s.name()) {
-                        fatref::assemble_lfn_units(&r2, &s.name())
-                    } else {
-                        None
-                    }
-                } else {
-                    None
-                }
-            };
+            // a name may be reported only for a complete, ordered run in which EVERY fragment carries
+            // the checksum of the short entry (each long-name slot has its own copy of it)
+            let sound = well.clone();
             let nfrag = run.iter().rposition(|x| x.raw[0] & 0x40 != 0).map(|p| run.len() - p).unwrap_or(0);
             exp.push(Exp { name: s.name(), sound, well, nfrag });
             run.clear();
@@ -322,8 +308,8 @@ pub fn run_into(ctx: &Ctx, total: &mut Report) {
                 None => {
                     if let Some(u) = &e.well {
                         let want = String::from_utf16_lossy(u);
-                        if e.nfrag <= 19 && want.len() <= bufsize {
-                            rep.violate(Violation::new("C17", "C17.lfn-missing", "iterate_dir_lfn", &format!("{} fragments", if e.nfrag <= 1 { "1".to_string() } else { "2..19".to_string() }), format!("entry #{} {}: well-formed {}-fragment run {:?} not reported", k, nm, e.nfrag, want), case()));
+                        if e.nfrag <= 20 && want.len() <= bufsize {
+                            rep.violate(Violation::new("C17", "C17.lfn-missing", "iterate_dir_lfn", &format!("{} fragments", if e.nfrag <= 1 { "1".to_string() } else if e.nfrag <= 19 { "2..19".to_string() } else { "20".to_string() }), format!("entry #{} {}: well-formed {}-fragment run {:?} not reported", k, nm, e.nfrag, want), case()));
                             return;
                         }
                     }
